@@ -82,6 +82,15 @@ InitWith(c) ==
 
 Init == \E c \in Cfgs : InitWith(c)
 
+\* seeded random configurations for -simulate (the full set Cfgs is too large to enumerate there)
+RandSeq(n, S) == [i \in 1..n |-> RandomElement(S)]
+RandCfg(k) ==
+  [norm |-> RandomElement(Norms), dmap |-> RandomElement(DMaps), nf |-> RandomElement(NFilts),
+   jbox |-> RandomElement(JBoxes), junkName |-> RandomElement(JunkNames),
+   msgs |-> [j \in 1..RandomElement(1..MaxMsgs) |->
+               [list |-> RandSeq(RandomElement(1..MaxList), Addrs), quar |-> RandomElement(QuarSet)]]]
+SimInit == \E k \in 1..3000 : InitWith(RandCfg(k))
+
 (***************************************************************************)
 (* Start                                                                   *)
 (***************************************************************************)
@@ -222,6 +231,7 @@ Next ==
   \/ (phase = "end" /\ ~Gen /\ UNCHANGED vars)
 
 Spec == Init /\ [][Next]_vars /\ WF_vars(Next)
+SimSpec == SimInit /\ [][Next]_vars
 
 (***************************************************************************)
 (* Properties                                                              *)
